@@ -76,6 +76,33 @@ func c08Jobs(tier string) []*Job {
 		sc.Dev.Dup, sc.Dev.Perm = false, false
 		jobs = append(jobs, job(sc, per))
 	}
+	// open environment, saturation: ONE real node receives the complete message set of a fault-free round (proposal,
+	// every peer's response, pre-commit, commit; each exactly once, no timer can fire: zero-time delivery) in EVERY
+	// order; in every terminal state (everything delivered) it must have accepted the block. For N>=4 every such order
+	// is realisable in a fault-free synchronous run because the other N-1>=M validators proceed without X.
+	for _, n := range []int{4, 5, 6, 7} {
+		for _, a := range []int64{-1, 0} {
+			h := uint32(5)
+			prim := primaryAt(h, 0, n)
+			for _, x := range []int{(prim + 1) % n, prim} {
+				sp := E2Spec{Views: 1, Proposals: "A", Responses: "AO", Commits: "AO", NoTimeout: true, Once: true, MaxDepth: 40, StateCap: 1_500_000}
+				if a >= 0 {
+					sp.PreCommits = "AO"
+				}
+				if tier == "thorough" {
+					sp.StateCap = 30_000_000
+				}
+				role := "backup"
+				if x == prim {
+					role = "primary"
+				}
+				sc := e2scen(fmt.Sprintf("C08-any-order-at-one-node-N%d-x%d-%s-%s", n, x, role, amevName(a)), n, x, a, sp)
+				sc.Oracle = "C08"
+				sc.Missing, sc.BadTx = map[int][]H{}, map[int][]H{}
+				jobs = append(jobs, job(sc, per))
+			}
+		}
+	}
 	if tier == "thorough" {
 		for _, n := range []int{2, 3} {
 			sc := timedScen(fmt.Sprintf("C08-N%d-all-interleavings", n), n, "C08", withMode("all"), withHeights(2), withHorizon(6))
